@@ -3,6 +3,7 @@
   Core Lean only (linked into the `verde_model` executable).
 -/
 import VerdeModel.Model.Coords
+import VerdeModel.Model.Blocks
 namespace Verde
 open Val
 
@@ -82,7 +83,42 @@ def opsCoords (op : String) (a : List Val) : Option Val :=
       pure (toVal r)
   | _ => none
 
-def dispatchers : List (String → List Val → Option Val) := [opsCoords]
+def parseRed : String → Option (Option Red)
+  | "mean" => some (some .mean) | "median" => some (some .median) | "sum" => some (some .sum)
+  | "min" => some (some .min) | "max" => some (some .max) | "average" => some none | _ => none
+
+/-- NaN-able list: atoms `nan` become `none`. -/
+def optRats (v : Val) : Option (List (Option Rat)) :=
+  match v with
+  | .list xs => xs.mapM fun x => match x with
+      | .atom "nan" => some none
+      | x => (fromVal x : Option Rat).map some
+  | _ => none
+
+def blockSpecAt (a : List Val) (i : Nat) : Option BlockSpec := do
+  pure ⟨← argAt (Option (List Rat)) a i, ← argAt (Option (Nat × Nat)) a (i + 1),
+        ← argAt (Option (List Rat)) a (i + 2), ← argAt Adjust a (i + 3)⟩
+
+def opsBlocks (op : String) (a : List Val) : Option Val :=
+  match op with
+  | "block_split" => do
+      let r := blockSplit (← argAt (List Rat) a 0) (← argAt (List Rat) a 1) (← blockSpecAt a 2)
+      pure (toVal (r.map fun (p : List (Rat × Rat) × List Nat) => (p.1.map fun (c : Rat × Rat) => [c.1, c.2], p.2)))
+  | "block_reduce" => do
+      let r := blockReduce (← argAt (List (List Rat)) a 0) (← argAt (List (List Rat)) a 1)
+        (← argAt (Option (List (List Rat))) a 2) (← blockSpecAt a 3)
+        ⟨← parseRed (← argAt String a 7), ← argAt Bool a 8, ← argAt Bool a 9⟩
+      pure (toVal r)
+  | "block_mean" => do
+      let r := blockMean (← argAt (List (List Rat)) a 0) (← argAt (List (List Rat)) a 1)
+        (← argAt (Option (List (List Rat))) a 2) (← blockSpecAt a 3)
+        (← argAt Bool a 7) (← argAt Bool a 8) (← argAt Bool a 9)
+      pure (toVal (r.map fun (c, m, w) => [c, m, w]))
+  | "v2w" => do
+      pure (toVal (varianceToWeights (← optRats (← a[0]?))))
+  | _ => none
+
+def dispatchers : List (String → List Val → Option Val) := [opsCoords, opsBlocks]
 
 def runLine (line : String) : String :=
   match Val.parseLine line with
